@@ -114,7 +114,8 @@ def generate(rng, tier):
             vals = [v + 16777217 for v in vals]
         call = {"func": rng.choice(OPS), "axes": op_axes, "to": to,
                 "boundary": G.kwval(rng, axes, G.WORDS), "fill": G.kwval(rng, axes, [0, 5, -1, 9, -1.5, 2.25])}
-        cases.append({"ctor": ctor, "dims": dims, "vals": vals, "call": call, "dtype": dtype})
+        cases.append({"ctor": ctor, "dims": dims, "vals": vals, "call": call, "dtype": dtype,
+                      "warmup": rng.random() < 0.3})
     return cases
 
 
@@ -136,6 +137,13 @@ def run_impl(case):
         kwargs["fill_value"] = k["fill"]
     axis = k["axes"] if len(k["axes"]) > 1 or k.get("axis_as_list") else k["axes"][0]
     try:
+        if case.get("warmup"):
+            # nothing is carried from one call to the next: the same call on other values first
+            try:
+                getattr(g, k["func"])(da[::-1] * 3 + 1 if da.ndim == 1 else (da * 3 + 1).isel({da.dims[0]: slice(None, None, -1)}),
+                                     axis, **kwargs)
+            except Exception:
+                pass
         r = getattr(g, k["func"])(da, axis, **kwargs)
         return {"dims": [[d, int(n)] for d, n in zip(r.dims, r.shape)],
                 "vals": [str(Fraction(float(v))) for v in r.values.ravel()],
